@@ -1,9 +1,9 @@
 SPECIFICATION Spec
 CONSTANTS
-  Cfg <- CfgA
+  Cfg <- CfgAasfound
   Kinds = {"scion"}
-  Shapes <- ShapesTableQ
-  Vias = {0, 1, 3}
+  Shapes <- ShapesOne
+  Vias = {0, 1, 2, 3}
   SrcDom = {"L", "F"}
   DstDom = {"L", "F"}
   Faults = {"none"}
@@ -15,6 +15,6 @@ CONSTANTS
   AuthDom <- AuthOK
   AlertDom <- AlertAll
   EpicDom <- EpicOK
-INVARIANTS TypeOK InvC01 InvC05 InvC06 InvC12 InvC13 InvC15 InvC15Answer InvPtr
-CONSTRAINT Emit
+INVARIANTS InvC06
+\* no scenarios
 CHECK_DEADLOCK FALSE
